@@ -9,6 +9,16 @@ ArgumentNode = namedtuple("ArgumentNode", ("name", "value", "lineno"))
 ExpressionNode = namedtuple("ExpressionNode", ("value", "lineno"))
 
 
+def _count_newlines(text):
+    """ Counts line breaks, treating "\\r\\n" as a single break """
+
+    return text.count("\n") + text.count("\r") - text.count("\r\n")
+
+
+class _InvalidSyntax(Exception):
+    """ Raised by grammar actions (PLY intercepts SyntaxError raised there); converted to SyntaxError by `parse()` """
+
+
 class Lexer(object):
     def __init__(self):
         self.lexer = lex.lex(module=self)
@@ -60,12 +70,16 @@ class Lexer(object):
 
     @TOKEN(r'("(\\.|[^"\\])*")|(\'(\\.|[^\'\\])*\')')
     def t_STRING(self, t):
-        t.value = t.value.strip("\"'").encode().decode("unicode_escape")
+        t.lexer.lineno += _count_newlines(t.value)
+        try:
+            t.value = t.value[1:-1].encode("latin-1", "backslashreplace").decode("unicode_escape")
+        except UnicodeDecodeError:
+            raise SyntaxError("Invalid escape sequence in string at position {0}".format(t.lexpos))
         return t
 
     @TOKEN(r"[\r\n]+")
     def t_newline(self, t):
-        t.lexer.lineno += len(t.value)
+        t.lexer.lineno += _count_newlines(t.value)
 
     def t_error(self, t):
         raise SyntaxError("Illegal character {0} at position {1}".format(t.value[0], t.lexpos))
@@ -224,6 +238,9 @@ class Parser(object):
         elements : element COMMA elements
         """
 
+        if isinstance(p[3], dict):
+            raise _InvalidSyntax("Syntax error: a list cannot contain both values and key: value pairs")
+
         p[0] = [p[1]] + p[3]
 
     def p_elements_element(self, p):
@@ -298,4 +315,11 @@ class Parser(object):
         # type: (str) -> ProgramNode
         """ Parses the source text into a program structure """
 
-        return self.parser.parse(source, lexer=self.lexer, tracking=True)
+        # Each source text is parsed on its own: line numbers start at 1 and the EEMS 2.0 flag is cleared
+        self.lexer.lineno = 1
+        self.eems_v2 = False
+
+        try:
+            return self.parser.parse(source, lexer=self.lexer, tracking=True)
+        except _InvalidSyntax as ex:
+            raise SyntaxError(str(ex))
